@@ -166,6 +166,9 @@ impl Scheduler for SimScheduler {
 // ------------------------------------------------------------------------------------------------
 
 thread_local! {
+    static PROBE_AFTER_ADMIN: Cell<u64> = const { Cell::new(0) };
+    static PROBE_BETWEEN_ADMIN: Cell<u64> = const { Cell::new(0) };
+    static PROBE_INTERLEAVED: Cell<u64> = const { Cell::new(0) };
     static CALLS: Cell<u64> = const { Cell::new(0) };
     static EVERY_CALL: Cell<u64> = const { Cell::new(1) };
     static YIELDS: Cell<u64> = const { Cell::new(0) };
@@ -427,6 +430,9 @@ pub fn execute(sc: &ThreadScenario, stats: &mut Stats) -> Outcome {
                                 Ok(r) => rtag(&r),
                                 Err(p) => format!("PANIC:{}", p),
                             };
+                            if SWITCHES.with(|s| s.get()) > sw0 {
+                                PROBE_INTERLEAVED.with(|c| c.set(c.get() + 1));
+                            }
                             if selfbug() && SWITCHES.with(|s| s.get()) > sw0 + 3 {
                                 w.accepted.push(b'!');
                             }
@@ -468,10 +474,15 @@ pub fn execute(sc: &ThreadScenario, stats: &mut Stats) -> Outcome {
                             let v = snap.1;
                             let mut w = SimWriter::new(j.plan.clone());
                             w.on_call = Some(call_yield);
+                            note_task();
+                            let sw0 = SWITCHES.with(|s| s.get());
                             let r = match catch(|| run_target(&snap.0, &j.target, &ctxs3[j.ctx.min(ctxs3.len() - 1)], &mut w)) {
                                 Ok(r) => rtag(&r),
                                 Err(p) => format!("PANIC:{}", p),
                             };
+                            if SWITCHES.with(|s| s.get()) > sw0 {
+                                PROBE_INTERLEAVED.with(|c| c.set(c.get() + 1));
+                            }
                             recs.lock().unwrap().push((ri, ji, v, w.accepted, r));
                             do_yield();
                         }
@@ -495,6 +506,12 @@ pub fn execute(sc: &ThreadScenario, stats: &mut Stats) -> Outcome {
             traces2.lock().unwrap().push(f.get());
             *iters2.lock().unwrap() += 1;
             for (ri, ji, v, bytes, res) in recs.lock().unwrap().iter() {
+                if *v > 0 {
+                    PROBE_AFTER_ADMIN.with(|c| c.set(c.get() + 1));
+                }
+                if *v > 0 && *v < refs2.len() - 1 {
+                    PROBE_BETWEEN_ADMIN.with(|c| c.set(c.get() + 1));
+                }
                 let (rb, rr) = &refs2[(*v).min(refs2.len() - 1)][*ri][*ji];
                 if res.starts_with("PANIC:") && !rr.starts_with("PANIC:") {
                     found2.lock().unwrap().push((Violation::new("C18", "panic-in-concurrent-render", format!("reader {} job {} version {}: {}", ri, ji, v, res)), tr.clone()));
@@ -535,6 +552,10 @@ pub fn execute(sc: &ThreadScenario, stats: &mut Stats) -> Outcome {
         let iters = *iterations_done.lock().unwrap();
         stats.add("schedules", iters);
         stats.add("scheduler_yields", YIELDS.with(|y| y.replace(0)));
+        stats.add("probe_render_with_another_task_running_inside_it", PROBE_INTERLEAVED.with(|c| c.replace(0)));
+        stats.add("probe_render_after_an_admin_operation", PROBE_AFTER_ADMIN.with(|c| c.replace(0)));
+        stats.add("probe_render_between_two_admin_operations", PROBE_BETWEEN_ADMIN.with(|c| c.replace(0)));
+        stats.add(if sc.mode == "rwlock" { "probe_schedules_rwlock_mode" } else { "probe_schedules_snapshot_mode" }, iters);
         stats.inc(&format!("sched_{}", match sched { Sched::Random { .. } => "random", Sched::Pct { .. } => "pct", Sched::Replay { .. } => "replay" }));
         let d = *diverged.lock().unwrap();
         if d > 0 {
